@@ -77,6 +77,33 @@ Definition n_mfro := name4 109 102 114 111.
 Definition n_mehd := name4 109 101 104 100.
 Definition n_tfra := name4 116 102 114 97.
 Definition n_pssh := name4 112 115 115 104.
+(* stage 3 *)
+Definition n_stsd := name4 115 116 115 100.
+Definition n_dref := name4 100 114 101 102.
+Definition n_url := name4 117 114 108 32.
+Definition n_avc1 := name4 97 118 99 49.
+Definition n_avc3 := name4 97 118 99 51.
+Definition n_hvc1 := name4 104 118 99 49.
+Definition n_hev1 := name4 104 101 118 49.
+Definition n_encv := name4 101 110 99 118.
+Definition n_av01 := name4 97 118 48 49.
+Definition n_vp08 := name4 118 112 48 56.
+Definition n_vp09 := name4 118 112 48 57.
+Definition n_mp4a := name4 109 112 52 97.
+Definition n_enca := name4 101 110 99 97.
+Definition n_ac3 := name4 97 99 45 51.
+Definition n_ec3 := name4 101 99 45 51.
+Definition n_avcC := name4 97 118 99 67.
+Definition n_btrt := name4 98 116 114 116.
+Definition n_pasp := name4 112 97 115 112.
+Definition n_colr := name4 99 111 108 114.
+Definition n_clap := name4 99 108 97 112.
+Definition n_schm := name4 115 99 104 109.
+Definition n_cslg := name4 99 115 108 103.
+Definition n_nclx := name4 110 99 108 120.
+Definition n_nclc := name4 110 99 108 99.
+Definition n_rICC := name4 114 73 67 67.
+Definition n_prof := name4 112 114 111 102.
 
 (* ---------------------------------------------------------------- box header (box.go / boxsr.go) *)
 Record hdr := mkHdr { h_name : list N; h_size : N; h_len : N }.
@@ -141,7 +168,22 @@ Inductive leaf :=
 | LMfro (version flags parentSize : N)
 | LMehd (version flags duration : N)
 | LTfra (version flags trackID lt lr ls : N) (entries : list (N * N * N * N * N))
-| LPssh (version flags : N) (sysid : list N) (kids : list (list N)) (data : list N).
+| LPssh (version flags : N) (sysid : list N) (kids : list (list N)) (data : list N)
+(* --- stage 3 --- *)
+(* prefixes of boxes that carry fields AND child boxes (MPre): stsd, dref, Visual/AudioSampleEntry *)
+| LStsd (version flags count : N)                                         (* SampleCount *)
+| LDref (version flags count : N)                                         (* EntryCount *)
+| LVisual (name : list N) (dri width height hres vres frameCount : N) (cname : list N)
+| LAudio (name : list N) (dri chan ssize srate : N)
+(* leaves *)
+| LUrl (version flags : N) (loc : list N) (noLoc noZero : bool)           (* Location, NoLocation, NoZeroTermination *)
+| LAvcC (profile compat level : N) (sps pps : list (list N)) (chroma bdl bdc nspsext : N) (noTrailing : bool)
+| LBtrt (bufsize maxbr avgbr : N)
+| LPasp (hsp vsp : N)
+| LColr (ctype : list N) (prim trans matrix : N) (fullRange : bool) (payload : list N)  (* ICCProfile / UnknownPayload *)
+| LClap (wn wd hn hd_ hon hod von vod : N)
+| LSchm (version flags : N) (stype : list N) (sversion : N) (uri : list N)
+| LCslg (version flags shift least greatest cstart cend : N).
 
 Definition leaf_name (l : leaf) : list N :=
   match l with
@@ -155,6 +197,10 @@ Definition leaf_name (l : leaf) : list N :=
   | LSbgp _ _ _ _ _ => n_sbgp | LPrft _ _ _ _ _ => n_prft | LTenc _ _ _ _ _ _ _ _ => n_tenc | LFrma _ => n_frma
   | LVmhd _ _ _ _ _ _ => n_vmhd | LSmhd _ _ _ => n_smhd | LFullOnly n _ _ => n | LMfro _ _ _ => n_mfro
   | LMehd _ _ _ => n_mehd | LTfra _ _ _ _ _ _ _ => n_tfra | LPssh _ _ _ _ _ => n_pssh
+  | LStsd _ _ _ => n_stsd | LDref _ _ _ => n_dref | LVisual n _ _ _ _ _ _ _ => n | LAudio n _ _ _ _ => n
+  | LUrl _ _ _ _ _ => n_url | LAvcC _ _ _ _ _ _ _ _ _ _ => n_avcC | LBtrt _ _ _ => n_btrt | LPasp _ _ => n_pasp
+  | LColr _ _ _ _ _ _ => n_colr | LClap _ _ _ _ _ _ _ _ => n_clap | LSchm _ _ _ _ _ => n_schm
+  | LCslg _ _ _ _ _ _ _ => n_cslg
   end.
 
 Definition unity_matrix : list N :=
@@ -502,6 +548,126 @@ Definition dec_pssh (h : hdr) : parser (leaf * rsvT) :=
      pdo data <- rdB dl ;;
      pret (LPssh v (vf_flags vf) sid kids data, [])) bs.
 
+(* ================================================================ stage 3 leaf kinds *)
+(* sr.ReadZeroTerminatedString(maxLen): the zero must be found among the first maxLen bytes of the slice *)
+Fixpoint zt (bs : list N) (n : N) {struct bs} : res (list N * list N) :=
+  if n =? 0 then Err else
+  match bs with
+  | [] => Err
+  | c :: t => if c =? 0 then Ok ([], t)
+              else match zt t (n - 1) with
+                   | Ok (s, r) => Ok (c :: s, r)
+                   | Err => Err | Panic => Panic | OutOfFuel => OutOfFuel
+                   end
+  end.
+Definition rd_zt (n : N) : parser (list N) := fun bs => zt bs n.
+(* sr.ReadPossiblyZeroTerminatedString(maxLen): stops at a zero or after maxLen bytes; indexes the slice
+   without a bounds check (Panic) *)
+Fixpoint pz (bs : list N) (n : N) {struct bs} : res ((list N * bool) * list N) :=
+  if n =? 0 then Ok (([], false), bs) else
+  match bs with
+  | [] => Panic
+  | c :: t => if c =? 0 then Ok (([], true), t)
+              else match pz t (n - 1) with
+                   | Ok ((s, z), r) => Ok ((c :: s, z), r)
+                   | Err => Err | Panic => Panic | OutOfFuel => OutOfFuel
+                   end
+  end.
+Definition rd_pz (n : N) : parser (list N * bool) := fun bs => pz bs n.
+
+(* ---------------------------------------------------------------- stsd / dref prefixes *)
+(* DecodeStsdSR returns sr.AccError() since repo commit cc4ccf6 (before, an stsd with a large-size header and
+   no body was accepted with invented zeros: finding C01-F4) *)
+Definition dec_stsd (h : hdr) : parser (leaf * rsvT) :=
+  pdo vf <- rd 4 ;; pdo cnt <- rd 4 ;; pret (LStsd (vf_version vf) (vf_flags vf) cnt, []).
+Definition dec_dref (h : hdr) : parser (leaf * rsvT) :=
+  pdo vf <- rd 4 ;; pdo cnt <- rd 4 ;; pret (LDref (vf_version vf) (vf_flags vf) cnt, []).
+
+(* ---------------------------------------------------------------- VisualSampleEntry / AudioSampleEntry prefixes *)
+Definition dec_visual (h : hdr) : parser (leaf * rsvT) :=
+  pdo r6 <- rdB 6 ;; pdo dri <- rd 2 ;; pdo r16 <- rdB 16 ;; pdo w <- rd 2 ;; pdo ht <- rd 2 ;;
+  pdo hres <- rd 4 ;; pdo vres <- rd 4 ;; pdo r4 <- rdB 4 ;; pdo fc <- rd 2 ;; pdo cl <- rd 1 ;;
+  if 31 <? cl then pfail else
+  pdo cn <- rdB cl ;; pdo pad <- rdB (31 - cl) ;; pdo depth <- rdB 2 ;; pdo pd <- rdB 2 ;;
+  pret (LVisual (h_name h) dri w ht hres vres fc cn, [r6; r16; r4; pad; depth; pd]).
+(* SampleRate = uint16(ReadUint32() >> 16): the low half is read and dropped *)
+Definition dec_audio (h : hdr) : parser (leaf * rsvT) :=
+  pdo r6 <- rdB 6 ;; pdo dri <- rd 2 ;; pdo r8 <- rdB 8 ;; pdo ch <- rd 2 ;; pdo ss <- rd 2 ;;
+  pdo r4 <- rdB 4 ;; pdo sr <- rd 2 ;; pdo lo <- rdB 2 ;;
+  pret (LAudio (h_name h) dri ch ss sr, [r6; r8; r4; lo]).
+
+(* ---------------------------------------------------------------- url *)
+Definition dec_url (h : hdr) : parser (leaf * rsvT) :=
+  pdo vf <- rd 4 ;;
+  if 4 <? payload_len h then
+    (pdo sz <- rd_pz (payload_len h - 4) ;;
+     pret (LUrl (vf_version vf) (vf_flags vf) (fst sz) false (negb (snd sz)), []))
+  else pret (LUrl (vf_version vf) (vf_flags vf) [] true false, []).
+
+(* ---------------------------------------------------------------- avcC (avc.DecodeAVCDecConfRec on the payload) *)
+Definition rd_nalu : parser (list N) := pdo n <- rd 2 ;; rdB n.
+Definition wr_nalu (x : list N) : list N := be_enc 2 (lenN x) ++ x.
+Definition avc_plain (p : N) : bool := (p =? 66) || (p =? 77) || (p =? 88).
+(* rsv: [6 reserved bits of byte 4]; [3 reserved bits of byte 5]; [6], [5], [5] reserved bits of the trailing
+   info (numbers, one-element chunks); then the bytes after the record, which the decoder drops *)
+Definition avcc_rec : parser (leaf * rsvT) :=
+  pdo cv <- rd 1 ;;
+  if negb (cv =? 1) then pfail else
+  pdo prof <- rd 1 ;; pdo compat <- rd 1 ;; pdo lvl <- rd 1 ;; pdo b4 <- rd 1 ;;
+  if negb (b4 mod 4 =? 3) then pfail else
+  pdo b5 <- rd 1 ;;
+  pdo sps <- rd_many 32 (b5 mod 32) rd_nalu ;;
+  pdo npps <- rd 1 ;;
+  pdo pps <- rd_many 256 npps rd_nalu ;;
+  if avc_plain prof then pret (LAvcC prof compat lvl sps pps 0 0 0 0 false, [[b4 / 4]; [b5 / 32]; [63]; [31]; [31]])
+  else fun bs =>
+    match bs with
+    | [] => Ok ((LAvcC prof compat lvl sps pps 0 0 0 0 true, [[b4 / 4]; [b5 / 32]; [63]; [31]; [31]]), [])
+    | _ => (pdo c0 <- rd 1 ;; pdo c1 <- rd 1 ;; pdo c2 <- rd 1 ;; pdo ne <- rd 1 ;;
+            if negb (ne =? 0) then pfail else
+            pret (LAvcC prof compat lvl sps pps (c0 mod 4) (c1 mod 8) (c2 mod 8) ne false,
+                  [[b4 / 4]; [b5 / 32]; [c0 / 4]; [c1 / 8]; [c2 / 8]])) bs
+    end.
+Definition dec_avcC (h : hdr) : parser (leaf * rsvT) :=
+  pdo data <- rdB (payload_len h) ;;
+  fun r => match avcc_rec data with
+           | Ok ((l, rsv), extra) => Ok ((l, rsv ++ [extra]), r)
+           | Err => Err | Panic => Panic | OutOfFuel => OutOfFuel
+           end.
+
+(* ---------------------------------------------------------------- btrt pasp clap cslg *)
+Definition dec_btrt (h : hdr) : parser (leaf * rsvT) :=
+  pdo a <- rd 4 ;; pdo b <- rd 4 ;; pdo c <- rd 4 ;; pret (LBtrt a b c, []).
+Definition dec_pasp (h : hdr) : parser (leaf * rsvT) :=
+  pdo a <- rd 4 ;; pdo b <- rd 4 ;; pret (LPasp a b, []).
+Definition dec_clap (h : hdr) : parser (leaf * rsvT) :=
+  pdo a <- rd 4 ;; pdo b <- rd 4 ;; pdo c <- rd 4 ;; pdo d <- rd 4 ;;
+  pdo e <- rd 4 ;; pdo f <- rd 4 ;; pdo g <- rd 4 ;; pdo i <- rd 4 ;; pret (LClap a b c d e f g i, []).
+Definition dec_cslg (h : hdr) : parser (leaf * rsvT) :=
+  pdo vf <- rd 4 ;;
+  let w := if vf_version vf =? 0 then 4%nat else 8%nat in
+  pdo a <- rd w ;; pdo b <- rd w ;; pdo c <- rd w ;; pdo d <- rd w ;; pdo e <- rd w ;;
+  pret (LCslg (vf_version vf) (vf_flags vf) a b c d e, []).
+
+(* ---------------------------------------------------------------- colr *)
+Definition colr_icc (t : list N) : bool := bytes_eqb t n_rICC || bytes_eqb t n_prof.
+Definition dec_colr (h : hdr) : parser (leaf * rsvT) :=
+  pdo ct <- rdB 4 ;;
+  if bytes_eqb ct n_nclx then
+    (pdo p <- rd 2 ;; pdo t <- rd 2 ;; pdo m <- rd 2 ;; pdo b <- rd 1 ;;
+     pret (LColr ct p t m (128 <=? b) [], [[b mod 128]]))
+  else if bytes_eqb ct n_nclc then
+    (pdo p <- rd 2 ;; pdo t <- rd 2 ;; pdo m <- rd 2 ;; pret (LColr ct p t m false [], [[0]]))
+  else if payload_len h <? 4 then pfail             (* ReadBytes of a negative count *)
+  else pdo pl <- rdB (payload_len h - 4) ;; pret (LColr ct 0 0 0 false pl, [[0]]).
+
+(* ---------------------------------------------------------------- schm *)
+Definition dec_schm (h : hdr) : parser (leaf * rsvT) :=
+  pdo vf <- rd 4 ;; pdo st <- rdB 4 ;; pdo sv <- rd 4 ;;
+  if has (vf_flags vf) 1 then
+    (pdo uri <- rd_zt (payload_len h) ;; pret (LSchm (vf_version vf) (vf_flags vf) st sv uri, []))
+  else pret (LSchm (vf_version vf) (vf_flags vf) st sv [], []).
+
 (* ---------------------------------------------------------------- encoders (bodies) *)
 Definition ok_bytes (l : list N) : res (list N) := Ok l.
 
@@ -586,7 +752,44 @@ Definition body_leaf (l : leaf) (r : rsvT) : res (list N) :=
   | LPssh v f sid kids data =>
       Ok (be_enc 4 (vf_join v f) ++ sid ++ (if 0 <? v then be_enc 4 (lenN kids) ++ flat_map (fun k => k) kids else []) ++
           be_enc 4 (lenN data) ++ data)
+  (* stage 3: for the MPre kinds this is what is written between the box header and the children *)
+  | LStsd v f cnt => Ok (be_enc 4 (vf_join v f) ++ be_enc 4 cnt)
+  | LDref v f cnt => Ok (be_enc 4 (vf_join v f) ++ be_enc 4 cnt)
+  | LVisual _ dri w ht hres vres fc cn =>
+      (* compressorNameLength := byte(len(name)); WriteZeroBytes(int(31 - compressorNameLength)) in byte arithmetic *)
+      Ok (chunk 0 r ++ be_enc 2 dri ++ chunk 1 r ++ be_enc 2 w ++ be_enc 2 ht ++ be_enc 4 hres ++ be_enc 4 vres ++
+          chunk 2 r ++ be_enc 2 fc ++ be_enc 1 (lenN cn) ++ cn ++ chunk 3 r ++ chunk 4 r ++ chunk 5 r)
+  | LAudio _ dri ch ss sr =>
+      Ok (chunk 0 r ++ be_enc 2 dri ++ chunk 1 r ++ be_enc 2 ch ++ be_enc 2 ss ++ chunk 2 r ++ be_enc 2 sr ++ chunk 3 r)
+  | LUrl v f loc noLoc noZero =>
+      Ok (be_enc 4 (vf_join v f) ++ (if noLoc then [] else loc ++ (if noZero then [] else [0])))
+  | LAvcC prof compat lvl sps pps chroma bdl bdc ne noTr =>
+      Ok (be_enc 1 1 ++ be_enc 1 prof ++ be_enc 1 compat ++ be_enc 1 lvl ++
+          be_enc 1 (N.lor 3 (hd 0 (chunk 0 r) * 4)) ++
+          be_enc 1 (N.lor (u8 (lenN sps)) (hd 0 (chunk 1 r) * 32)) ++ flat_map wr_nalu sps ++
+          be_enc 1 (lenN pps) ++ flat_map wr_nalu pps ++
+          (if avc_plain prof || noTr then []
+           else be_enc 1 (N.lor (hd 0 (chunk 2 r) * 4) chroma) ++ be_enc 1 (N.lor (hd 0 (chunk 3 r) * 8) bdl) ++
+                be_enc 1 (N.lor (hd 0 (chunk 4 r) * 8) bdc) ++ be_enc 1 ne) ++
+          chunk 5 r)
+  | LBtrt a b c => Ok (be_enc 4 a ++ be_enc 4 b ++ be_enc 4 c)
+  | LPasp a b => Ok (be_enc 4 a ++ be_enc 4 b)
+  | LColr ct p t m fr pl =>
+      if bytes_eqb ct n_nclx then
+        Ok (ct ++ be_enc 2 p ++ be_enc 2 t ++ be_enc 2 m ++ be_enc 1 ((if fr then 128 else 0) + hd 0 (chunk 0 r)))
+      else if bytes_eqb ct n_nclc then Ok (ct ++ be_enc 2 p ++ be_enc 2 t ++ be_enc 2 m)
+      else Ok (ct ++ pl)
+  | LClap a b c d e f g i =>
+      Ok (be_enc 4 a ++ be_enc 4 b ++ be_enc 4 c ++ be_enc 4 d ++ be_enc 4 e ++ be_enc 4 f ++ be_enc 4 g ++ be_enc 4 i)
+  | LSchm v f st sv uri =>
+      Ok (be_enc 4 (vf_join v f) ++ st ++ be_enc 4 sv ++ (if has f 1 then uri ++ [0] else []))
+  | LCslg v f a b c d e =>
+      let w := if v =? 0 then 4%nat else 8%nat in
+      Ok (be_enc 4 (vf_join v f) ++ be_enc w a ++ be_enc w b ++ be_enc w c ++ be_enc w d ++ be_enc w e)
   end.
+
+(* WriteZeroBytes(int(31 - compressorNameLength)) with compressorNameLength := byte(len(name)), in byte arithmetic *)
+Definition vis_pad (n : N) : N := u8 (31 + 256 - u8 n).
 
 (* what Go writes in the reserved places *)
 Definition dflt_rsv (l : leaf) : rsvT :=
@@ -599,6 +802,23 @@ Definition dflt_rsv (l : leaf) : rsvT :=
   | LTenc v _ _ _ _ _ _ _ => if v =? 0 then [zeros 1; zeros 1] else [zeros 1; []]
   | LSmhd _ _ _ => [zeros 2]
   | LTfra _ _ _ _ _ _ _ => [[0]]
+  | LVisual _ _ _ _ _ _ _ cn =>
+      [zeros 6; zeros 16; zeros 4; zeros (N.to_nat (vis_pad (lenN cn))); [0; 24]; [255; 255]]
+  | LAudio _ _ _ _ _ => [zeros 6; zeros 8; zeros 4; zeros 2]
+  | LAvcC _ _ _ _ _ _ _ _ _ _ => [[63]; [7]; [63]; [31]; [31]; []]
+  | LColr _ _ _ _ _ _ => [[0]]
+  | _ => []
+  end.
+
+(* which captured chunks are ISO reserved / pre_defined bits (the committed don't-care list) -- true -- and which
+   are bits that the encoder re-derives although the list does not excuse them -- false: the padding after the
+   compressor name and the depth of a VisualSampleEntry, the fraction of the AudioSampleEntry sample rate, the
+   bytes after an AVC decoder configuration record.  Chunks beyond the list are don't-care. *)
+Definition rsv_dc (l : leaf) : list bool :=
+  match l with
+  | LVisual _ _ _ _ _ _ _ _ => [true; true; true; false; false; true]
+  | LAudio _ _ _ _ _ => [true; true; true; false]
+  | LAvcC _ _ _ _ _ _ _ _ _ _ => [true; true; true; true; true; false]
   | _ => []
   end.
 
@@ -644,6 +864,22 @@ Definition size_leaf (l : leaf) : N :=
   | LTfra v _ _ lt lr ls es =>
       24 + u32 (lenN es) * ((if v =? 1 then 16 else 8) + (1 + lt) + (1 + lr) + (1 + ls))
   | LPssh v _ _ kids data => 32 + lenN data + (if 0 <? v then 4 + 16 * lenN kids else 0)
+  (* stage 3; for the MPre kinds: header + prefix (the children are added by size_box) *)
+  | LStsd _ _ _ => 16
+  | LDref _ _ _ => 16
+  | LVisual _ _ _ _ _ _ _ _ => 86
+  | LAudio _ _ _ _ _ => 36
+  | LUrl _ _ loc noLoc noZero => 12 + (if noLoc then 0 else lenN loc + 1 - (if noZero then 1 else 0))
+  | LAvcC prof _ _ sps pps _ _ _ _ noTr =>
+      8 + 7 + sumN (map (fun x => 2 + lenN x) sps) + sumN (map (fun x => 2 + lenN x) pps) +
+      (if avc_plain prof then 0 else if noTr then 0 else 4)
+  | LBtrt _ _ _ => 20
+  | LPasp _ _ => 16
+  | LColr ct _ _ _ _ pl =>
+      12 + (if bytes_eqb ct n_nclx then 7 else if colr_icc ct then lenN pl else if bytes_eqb ct n_nclc then 6 else lenN pl)
+  | LClap _ _ _ _ _ _ _ _ => 40
+  | LSchm _ f _ _ uri => 20 + (if has f 1 then lenN uri + 1 else 0)
+  | LCslg v _ _ _ _ _ _ => if negb (v =? 0) then 52 else 32
   end.
 
 (* header written by the leaf encoder *)
@@ -671,7 +907,24 @@ Definition leaf_table : list (list N * (hdr -> parser (leaf * rsvT))) :=
     (n_sdtp, dec_sdtp); (n_ctts, dec_ctts); (n_elst, dec_elst); (n_saiz, dec_saiz); (n_saio, dec_saio);
     (n_sbgp, dec_sbgp); (n_prft, dec_prft); (n_tenc, dec_tenc); (n_frma, dec_frma); (n_vmhd, dec_vmhd);
     (n_smhd, dec_smhd); (n_nmhd, dec_fullonly); (n_sthd, dec_fullonly); (n_mfro, dec_mfro); (n_mehd, dec_mehd);
-    (n_tfra, dec_tfra); (n_pssh, dec_pssh) ].
+    (n_tfra, dec_tfra); (n_pssh, dec_pssh);
+    (n_url, dec_url); (n_avcC, dec_avcC); (n_btrt, dec_btrt); (n_pasp, dec_pasp); (n_colr, dec_colr);
+    (n_clap, dec_clap); (n_schm, dec_schm); (n_cslg, dec_cslg) ].
+
+(* boxes with a field prefix followed by child boxes.  PStrict off: DecodeContainerChildrenSR(hdr, startPos+off,
+   startPos+hdr.Size) (sizes cross-checked against the bytes consumed); PEntry start: the sample entry loop
+   `for pos < startPos+hdr.Size { DecodeBoxSR; pos += box.Size() }` starting at pos = startPos+start *)
+Inductive loopkind := PStrict (off : N) | PEntry (start : N).
+Definition pre_table : list (list N * ((hdr -> parser (leaf * rsvT)) * loopkind)) :=
+  [ (n_stsd, (dec_stsd, PStrict 16)); (n_dref, (dec_dref, PStrict 16));
+    (n_avc1, (dec_visual, PEntry 86)); (n_avc3, (dec_visual, PEntry 86)); (n_hvc1, (dec_visual, PEntry 86));
+    (n_hev1, (dec_visual, PEntry 86)); (n_encv, (dec_visual, PEntry 86)); (n_av01, (dec_visual, PEntry 86));
+    (n_vp08, (dec_visual, PEntry 86)); (n_vp09, (dec_visual, PEntry 86));
+    (n_mp4a, (dec_audio, PEntry 36)); (n_enca, (dec_audio, PEntry 36)); (n_ac3, (dec_audio, PEntry 36));
+    (n_ec3, (dec_audio, PEntry 36)) ].
+(* len(children) != int(sampleCount) / entryCount != dref.EntryCount *)
+Definition pre_count_ok (l : leaf) (n : N) : bool :=
+  match l with LStsd _ _ c => n =? c | LDref _ _ c => n =? c | _ => true end.
 
 (* containers whose decoder is DecodeContainerChildrenSR + AddChild and whose encoder is EncodeContainerSW *)
 Definition cont_table : list (list N) :=
@@ -687,17 +940,20 @@ Definition is_cont (n : list N) : bool := existsb (bytes_eqb n) cont_table.
 Inductive mbox :=
 | MLeaf (h : hdr) (l : leaf) (r : rsvT)            (* h: the header as decoded *)
 | MCont (h : hdr) (cs : list mbox)
-| MUnknown (h : hdr) (payload : list N).           (* UnknownBox{name, size = hdr.Size, notDecoded} *)
+| MUnknown (h : hdr) (payload : list N)            (* UnknownBox{name, size = hdr.Size, notDecoded} *)
+| MPre (h : hdr) (l : leaf) (r : rsvT) (cs : list mbox).   (* stsd, dref, sample entries: fields, then children *)
 
 Fixpoint size_box (t : mbox) : N :=
   match t with
   | MLeaf _ l _ => size_leaf l
   | MCont _ cs => 8 + sumN (map size_box cs)        (* containerSize *)
   | MUnknown h _ => h_size h                        (* b.size: the decoded header size, large header included *)
+  | MPre _ l _ cs => size_leaf l + sumN (map size_box cs)
   end.
 
 Definition box_name (t : mbox) : list N :=
-  match t with MLeaf _ l _ => leaf_name l | MCont h _ => h_name h | MUnknown h _ => h_name h end.
+  match t with MLeaf _ l _ => leaf_name l | MCont h _ => h_name h | MUnknown h _ => h_name h
+             | MPre _ l _ _ => leaf_name l end.
 
 (* MoovBox.AddChild: a trak arriving when the last trak is neither first nor last is inserted after it.
    Generic in the element type so that the same re-ordering can be applied to the children's encodings. *)
@@ -732,6 +988,26 @@ Fixpoint decode_box (fuel : nat) (bs : list N) : res (mbox * list N) :=
                        | Err => Err | Panic => Panic | OutOfFuel => OutOfFuel
                        end
            | None =>
+             match lookup (h_name h) pre_table with
+             | Some (d, lk) =>
+               match d h r with
+               | Ok ((l, rsv), r1) =>
+                 match lk with
+                 | PStrict off =>
+                     if h_size h <? off then Err       (* pos > endPos at once *)
+                     else match decode_children f (h_size h - off) 0 0 r1 with
+                          | Ok (cs, r') => if pre_count_ok l (lenN cs) then Ok (MPre h l rsv cs, r') else Err
+                          | Err => Err | Panic => Panic | OutOfFuel => OutOfFuel
+                          end
+                 | PEntry start =>
+                     match decode_entries f (h_size h) start r1 with
+                     | Ok (cs, r') => Ok (MPre h l rsv cs, r')
+                     | Err => Err | Panic => Panic | OutOfFuel => OutOfFuel
+                     end
+                 end
+               | Err => Err | Panic => Panic | OutOfFuel => OutOfFuel
+               end
+             | None =>
              if is_cont (h_name h) then
                (* pos starts at startPos+8 whatever the header length; endPos = startPos+size *)
                match decode_children f (h_size h - 8) 0 0 r with
@@ -744,6 +1020,7 @@ Fixpoint decode_box (fuel : nat) (bs : list N) : res (mbox * list N) :=
                   | Ok (p, r') => Ok (MUnknown h p, r')
                   | Err => Err | Panic => Panic | OutOfFuel => OutOfFuel
                   end
+             end
            end
     | Err => Err | Panic => Panic | OutOfFuel => OutOfFuel
     end
@@ -766,9 +1043,44 @@ with decode_children (fuel : nat) (target pos used : N) (bs : list N) : res (lis
                   end
          | Err => Err | Panic => Panic | OutOfFuel => OutOfFuel
          end
+  end
+(* the child loop of Visual/AudioSampleEntry: no cross-check of sizes against consumed bytes, overshoot accepted *)
+with decode_entries (fuel : nat) (target pos : N) (bs : list N) : res (list mbox * list N) :=
+  match fuel with
+  | O => OutOfFuel
+  | S f =>
+    if target <=? pos then Ok ([], bs)
+    else match decode_box f bs with
+         | Ok (c, r) =>
+             match decode_entries f target (pos + size_box c) r with
+             | Ok (cs, r') => Ok (c :: cs, r')
+             | Err => Err | Panic => Panic | OutOfFuel => OutOfFuel
+             end
+         | Err => Err | Panic => Panic | OutOfFuel => OutOfFuel
+         end
   end.
 
 Definition decode (bs : list N) : res (mbox * list N) := decode_box (S (length bs)) bs.
+
+(* the box loop of DecodeFileSR: DecodeBoxSR until the slice is used up.  The File-level acceptance checks
+   (complete trak/.../stts chain in moov, mdat placement, senc parsing) and File.AddChild's segment bookkeeping
+   are NOT modelled; in box-tree encode mode File.Encode writes f.Children in order (encode_seq). *)
+Fixpoint decode_seq (fuel : nat) (bs : list N) : res (list mbox) :=
+  match fuel with
+  | O => OutOfFuel
+  | S f =>
+    match bs with
+    | [] => Ok []
+    | _ => match decode bs with
+           | Ok (t, r) => match decode_seq f r with
+                          | Ok ts => Ok (t :: ts)
+                          | Err => Err | Panic => Panic | OutOfFuel => OutOfFuel
+                          end
+           | Err => Err | Panic => Panic | OutOfFuel => OutOfFuel
+           end
+    end
+  end.
+Definition decode_file (bs : list N) : res (list mbox) := decode_seq (S (length bs)) bs.
 
 (* ---------------------------------------------------------------- encoding the tree *)
 (* bytes the encoders attempt to write.  keep = true puts the captured reserved bytes back (used to state
@@ -800,6 +1112,10 @@ Fixpoint raw_box (keep : bool) (t : mbox) : res (list N) :=
       else all
   | MUnknown h p =>      (* the header form seen at decode is written back (repo commit 6d4574a) *)
       Ok ((if 8 <? h_len h then enc_hdr_large (h_name h) (h_size h) else enc_hdr (h_name h) (h_size h)) ++ p)
+  | MPre _ l r cs =>     (* EncodeHeaderSW; the prefix fields; then the children in order *)
+      let body := fold_right (fun c acc => rcat (raw_box keep c) acc) (Ok []) cs in
+      rcat (Ok (enc_hdr (leaf_name l) (size_leaf l + sumN (map size_box cs))))
+           (rcat (body_leaf l (if keep then r else dflt_rsv l)) body)
   end.
 
 (* EncodeHeaderSW refuses sizes >= 2^32 (mdat with LargeSize excepted) *)
@@ -808,6 +1124,7 @@ Fixpoint enc_fits (t : mbox) : bool :=
   | MLeaf _ l _ => leaf_large l || (size_leaf l <? 4294967296)
   | MCont _ cs => (8 + sumN (map size_box cs) <? 4294967296) && forallb enc_fits cs
   | MUnknown h _ => (8 <? h_len h) || (h_size h <? 4294967296)
+  | MPre _ l _ cs => (size_leaf l + sumN (map size_box cs) <? 4294967296) && forallb enc_fits cs
   end.
 
 (* per-leaf FixedSliceWriter capacity check of the io.Writer path: every non-container box allocates
@@ -818,6 +1135,7 @@ Fixpoint caps_ok (t : mbox) : bool :=
   | MLeaf _ l r => match raw_leaf l (dflt_rsv l) with Ok b => lenN b <=? size_leaf l | _ => true end
   | MCont _ cs => forallb caps_ok cs
   | MUnknown h p => (if 8 <? h_len h then 16 else 8) + lenN p <=? h_size h
+  | MPre _ _ _ cs => forallb caps_ok cs      (* header, prefix and children are written straight to w *)
   end.
 
 (* b.Encode(w) *)
@@ -833,6 +1151,10 @@ Definition encode_sw (t : mbox) : res (list N) :=
   | Ok b => if enc_fits t && (lenN b <=? size_box t) then Ok b else Err
   | Err => Err | Panic => Panic | OutOfFuel => OutOfFuel
   end.
+
+(* File.Encode in box-tree mode *)
+Fixpoint encode_seq (keep : bool) (ts : list mbox) : res (list N) :=
+  match ts with [] => Ok [] | t :: r => rcat (raw_box keep t) (encode_seq keep r) end.
 
 (* the size field found at the start of an encoded box *)
 Definition hdr_size_field (bs : list N) : N :=
@@ -860,4 +1182,59 @@ Fixpoint exact_box (t : mbox) : bool :=
                   (negb (bytes_eqb (h_name h) n_moov) || moov_stable_from is_trak_box [] cs) &&
                   (negb (bytes_eqb (h_name h) n_moof) || match moof_pre cs with Ok _ => true | _ => false end)
   | MUnknown h _ => (h_len h =? 8) || (h_len h =? 16)
+  | MPre h l _ cs => hdr_exact h (size_leaf l + sumN (map size_box cs)) && leaf_guard l && forallb exact_box cs
+  end.
+
+(* ---------------------------------------------------------------- why a decoded tree is not reproduced *)
+(* Every way in which the model's re-encoding of a decoded tree can differ from the input, as data: the check
+   labels each failing input of the search with the reasons the model gives for it (C01_explained: no reason,
+   no difference). *)
+Inductive reason :=
+| RLarge                       (* large-size header that is written back compact (listed normalisation) *)
+| RSizeBig | RSizeSmall        (* announced size above / below what the decoded fields need (Size()) *)
+| RGuard                       (* trun whose data offset is present and zero: Encode refuses it *)
+| RMoov                        (* trak moved by MoovBox.AddChild (listed normalisation) *)
+| RMoof                        (* moof holding a trun with an unset data offset: Encode refuses it *)
+| RRsv (dc : bool) (i : nat)   (* captured chunk i differs from what the encoder writes; dc: ISO reserved bits *)
+| RShape.                      (* never for decoded trees *)
+
+Fixpoint chunks_why (i : nat) (dc : list bool) (r d : rsvT) : list reason :=
+  match r, d with
+  | [], [] => []
+  | c :: r', e :: d' => (if bytes_eqb c e then [] else [RRsv (hd true dc) i]) ++ chunks_why (S i) (tl dc) r' d'
+  | _, _ => [RShape]
+  end.
+Definition hdr_why (large : bool) (h : hdr) (sz : N) : list reason :=
+  (if h_len h =? (if large then 16 else 8) then [] else [RLarge]) ++
+  (if sz <? h_size h then [RSizeBig] else []) ++ (if h_size h <? sz then [RSizeSmall] else []).
+Definition leaf_why (large : bool) (h : hdr) (l : leaf) (r : rsvT) (sz : N) : list reason :=
+  hdr_why large h sz ++ (if leaf_guard l then [] else [RGuard]) ++ chunks_why 0 (rsv_dc l) r (dflt_rsv l).
+Fixpoint why_box (t : mbox) : list (list N * reason) :=
+  match t with
+  | MLeaf h l r => map (pair (leaf_name l)) (leaf_why (leaf_large l) h l r (size_leaf l))
+  | MCont h cs =>
+      map (pair (h_name h))
+        ((if h_len h =? 8 then [] else [RLarge]) ++
+         (if negb (bytes_eqb (h_name h) n_moov) || moov_stable_from is_trak_box [] cs then [] else [RMoov]) ++
+         (if negb (bytes_eqb (h_name h) n_moof) || match moof_pre cs with Ok _ => true | _ => false end
+          then [] else [RMoof]))
+      ++ flat_map why_box cs
+  | MUnknown h _ => if (h_len h =? 8) || (h_len h =? 16) then [] else [(h_name h, RShape)]
+  | MPre h l r cs =>
+      map (pair (leaf_name l)) (leaf_why false h l r (size_leaf l + sumN (map size_box cs))) ++ flat_map why_box cs
+  end.
+
+Fixpoint rsv_eqb (r d : rsvT) : bool :=
+  match r, d with
+  | [], [] => true
+  | c :: r', e :: d' => bytes_eqb c e && rsv_eqb r' d'
+  | _, _ => false
+  end.
+(* every captured chunk has the value the encoder writes *)
+Fixpoint rsv_default (t : mbox) : bool :=
+  match t with
+  | MLeaf _ l r => rsv_eqb r (dflt_rsv l)
+  | MCont _ cs => forallb rsv_default cs
+  | MUnknown _ _ => true
+  | MPre _ l r cs => rsv_eqb r (dflt_rsv l) && forallb rsv_default cs
   end.
